@@ -188,6 +188,55 @@ int main() {
     }
     mpz_clear(c); mpq_clear(cq); mpf_clear(cf);
   }
+  // basefield combinations: the standard library treats anything but exactly oct or exactly hex as decimal; the classes must do the same
+  { typedef std::ios_base::fmtflags ff; const ff D = std::ios::dec, O = std::ios::oct, H = std::ios::hex;
+    ff combos[] = { D | O, O | H, D | H, D | O | H, ff(0) };
+    static const long WV[] = {0, 1, 8, 4711, 65535, 1234567890L, -4711};
+    for (long v : WV) for (ff c : combos) for (int sb = 0; sb < 2; sb++) {
+      mpz_class z(v); mpq_class q(v, 9); q.canonicalize(); mpf_class f(v); f /= 4;
+      std::ostringstream a, b, aq, bq, af, bf, al;
+      a.setf(c, std::ios::basefield); aq.setf(c, std::ios::basefield); af.setf(c, std::ios::basefield); al.setf(c, std::ios::basefield);
+      if (sb) { a << std::showbase; b << std::showbase; aq << std::showbase; bq << std::showbase; af << std::showbase; bf << std::showbase; al << std::showbase; }
+      a << z; b << z; aq << q; bq << q; af << f; bf << f; al << v;
+      CHECK("ostream_basefield_combo_z", a.str() == b.str());
+      CHECK("ostream_basefield_combo_long", a.str() == al.str());
+      CHECK("ostream_basefield_combo_q", aq.str() == bq.str());
+      CHECK("ostream_basefield_combo_f", af.str() == bf.str());
+    }
+    for (long v : WV) if (v >= 0) { mpz_class z(v); std::ostringstream a; a << std::oct << z; char *s = mpz_get_str(0, 8, z.get_mpz_t()); CHECK("ostream_oct_vs_get_str", a.str() == std::string(s)); free(s);
+      std::ostringstream h; h << std::hex << z; s = mpz_get_str(0, 16, z.get_mpz_t()); CHECK("ostream_hex_vs_get_str", h.str() == std::string(s)); free(s); }
+  }
+  // extraction of floats: every spelling mpf_set_str accepts must give the same value through operator>>, and stop at the same place
+  { static const char *FT[] = {"1.5e3", "1.5E3", "1.5e+3", "1.5E+3", "-2.5e-2", "-2.5E-2", "1e2", "1E2", "125", "0.001953125", ".5", "5.", "-0.75E1", "7.25e0", "7.25E0", "1e0", "1E10"};
+    for (const char *t : FT) {
+      mpf_t cf; mpf_init2(cf, 256); int rc = mpf_set_str(cf, t, 10);
+      std::istringstream is(std::string(t) + " 99"); mpf_class x(0, 256); int after = -1; is >> x; if (!is.fail()) { is >> after; }
+      if (rc == 0) { CHECK("istream_mpf_value", !is.fail() && mpf_cmp(x.get_mpf_t(), cf) == 0); CHECK("istream_mpf_stops_after_number", after == 99); }
+      mpf_clear(cf);
+    }
+    // what the library writes in any float format reads back to the same value
+    static const double RV[] = {1.5, -0.25, 1024.0, 1536.0, 0.001953125, 123456789.0, -7.75e10};
+    for (double d : RV) for (int up = 0; up < 2; up++) for (int sci = 0; sci < 3; sci++) {
+      mpf_class f(d, 128); std::ostringstream os; if (up) os << std::uppercase; if (sci == 1) os << std::scientific; if (sci == 2) os << std::fixed; os << std::setprecision(30) << f;
+      std::istringstream is(os.str()); mpf_class x(0, 128); is >> x; CHECK("ostream_istream_mpf_roundtrip", !is.fail() && x == f);
+    }
+    // integers and rationals: sign, leading white space, base prefixes with basefield 0, upper-case digits and prefix
+    static const char *ZT[] = {"123", "-123", "  42", "0x1F", "0X1f", "017", "0", "-0x10", "0b101", "ABCDEF"};
+    for (const char *t : ZT) for (int mode = 0; mode < 3; mode++) {
+      int base = mode == 0 ? 10 : (mode == 1 ? 16 : 0);
+      mpz_t cz; mpz_init(cz); const char *p = t; while (*p == ' ') p++; int rc = mpz_set_str(cz, p, base);
+      std::istringstream is(std::string(t) + " 77"); if (mode == 1) is >> std::hex; if (mode == 2) is.unsetf(std::ios::basefield);
+      mpz_class x(5); is >> x;
+      // the stream accepts the longest valid prefix where mpz_set_str rejects the whole string: compare only when the C function accepts it and the text has no prefix it ignores in this base
+      bool prefixed = (t[0] == '0' && (t[1] == 'x' || t[1] == 'X' || t[1] == 'b')) || (t[0] == '-' && t[1] == '0' && t[2] == 'x');
+      if (rc == 0 && !(prefixed && base != 0) && !(base == 0 && t[0] == '0' && t[1] == 'b')) CHECK("istream_mpz_vs_set_str", !is.fail() && mpz_cmp(x.get_mpz_t(), cz) == 0);
+      mpz_clear(cz);
+    }
+    static const char *QT[] = {"3/4", "-3/4", "6/8", "17", "0x10/0x3", "-5/1"};
+    for (const char *t : QT) { int base = (t[0] == '0' || (t[0] == '-' && t[1] == '0')) ? 0 : 10; mpq_t cq; mpq_init(cq); int rc = mpq_set_str(cq, t, base);
+      std::istringstream is(std::string(t) + " 77"); if (base == 0) is.unsetf(std::ios::basefield); mpq_class x; is >> x;
+      if (rc == 0) CHECK("istream_mpq_vs_set_str", !is.fail() && mpq_equal(x.get_mpq_t(), cq)); mpq_clear(cq); }
+  }
   // conversions between the classes and swap
   { mpz_class z("123456789012345678901234567890"); mpq_class q(z); mpf_class f(z, 256); CHECK("conv", q.get_num() == z && q.get_den() == 1 && mpz_class(f) == z);
     mpz_class a(5), b(-7); swap(a, b); CHECK("swap", a == -7 && b == 5); mpq_class x(1, 2), y(3); swap(x, y); CHECK("qswap", x == 3 && y == mpq_class(1, 2)); }
